@@ -92,6 +92,7 @@ class Recorder:
         self.rehome = {(k, l) for k, l in plan.get("rehome", ())}
         self.false_at = set(plan.get("false", ()))
         self.editlist = set(plan.get("editlist", ()))
+        self.sealed = set(plan.get("sealed", ()))  # labels of nodes whose class refuses attribute writes during this call
         self.current_list = None
         self.veto_class = VETO_KINDS[plan.get("exc")]
 
@@ -267,6 +268,38 @@ class HSideNM(HookMix, NodeMixin):
                 del self.__dict__["_side"][key]
             except KeyError:
                 raise AttributeError(key) from None
+
+
+class SealedError(TypeError):
+    """Raised by the __setattr__ of a sealed (frozen) node."""
+
+
+class SealMix:
+    """Nodes that can be sealed: while their label is in the plan's 'sealed' list, every attribute write on them is refused
+    (a frozen record, a node handed to a plug-in read-only)."""
+
+    __slots__ = ()
+
+    def __setattr__(self, key, value):
+        rec = _rec()
+        if rec is not None and rec.sealed and rec.labels.known(self) and rec.labels.label(self) in rec.sealed:
+            raise SealedError("node is sealed")
+        object.__setattr__(self, key, value)
+
+
+class HSealNM(SealMix, HookMix, NodeMixin):
+    separator = "/"
+
+    def __init__(self, name):
+        self.name = name
+
+
+class HSealLM(SealMix, HookMix, LightNodeMixin):
+    __slots__ = ("name",)
+    separator = "/"
+
+    def __init__(self, name):
+        self.name = name
 
 
 class HArmNM(HookMix, NodeMixin):
@@ -451,6 +484,8 @@ CLASSES = {
     "LateSuperNM": (lambda l: _nodes.LateSuperNM(_name(l)), "NM", False),
     "LockNM": (lambda l: LockNM(_name(l)), "NM", False),
     "HArmNM": (lambda l: HArmNM(_name(l)), "NM", True),
+    "HSealNM": (lambda l: HSealNM(_name(l)), "NM", True),
+    "HSealLM": (lambda l: HSealLM(_name(l)), "LM", True),
     "HSlotStoreNM": (lambda l: HSlotStoreNM(_name(l)), "NM", True),
     "HSideNM": (lambda l: HSideNM(_name(l)), "NM", True),
     "HRevNM": (lambda l: HRevNM(_name(l)), "NM", True),
@@ -1034,6 +1069,7 @@ def history_strategy(max_nodes=7, max_steps=30, faults="none", invalid=False, cl
                 plans.append(st.integers(1, 14).map(lambda k: {"base": [k]}))
                 plans.append(st.lists(st.integers(1, 14), min_size=1, max_size=3, unique=True).map(lambda ks: {"false": sorted(ks)}))
                 plans.append(st.lists(st.integers(1, 14), min_size=1, max_size=4, unique=True).map(lambda ks: {"editlist": sorted(ks)}))
+                plans.append(st.lists(idx, min_size=1, max_size=2, unique=True).map(lambda ls: {"sealed": sorted(ls)}))  # only classes built on SealMix react
                 plans.append(st.lists(st.tuples(st.sampled_from(["pre_detach", "post_detach", "pre_attach", "post_attach", "pre_detach_children", "post_detach_children", "pre_attach_children", "post_attach_children"]), idx).map(list), min_size=1, max_size=2).map(lambda ps: {"evict": ps}))
             plan = st.one_of(*plans)
         steps = draw(st.lists(st.tuples(op, plan).map(lambda t: {"op": t[0], "plan": t[1]}), min_size=1, max_size=max_steps))
